@@ -737,14 +737,20 @@ class Tiny:
                 return ("continue", None)
             elif isinstance(st, ast.While):
                 n = 0
+                broke = False
                 while self.truth(self.ev(st.test)):
                     n += 1
                     if n > 64:
                         raise TinyRaise("<loop does not terminate on this cell>")
                     r = self._run(st.body, stop)
                     if r[0] == "break":
+                        broke = True
                         break
                     if r[0] not in ("fall", "continue"):
+                        return r
+                if not broke and st.orelse:
+                    r = self._run(st.orelse, stop)
+                    if r[0] != "fall":
                         return r
             elif isinstance(st, ast.Try):
                 try:
